@@ -16,7 +16,8 @@ ASSUMPTIONS = [
 OUTSIDE = ["statements that raise an exception half-way", "statements spread over several source lines", "operator '@'"]
 EXPLANATION = ("Bounded symbolic execution (CrossHair/z3) over a grammar of statements that read or write a thread-safe attribute A=o.x: v = A, v = A op w, "
                "v = w op A, if A cmp w:, while w cmp A:, return A cmp w, f(A), f(k=A), v op= A, A = w, A op= w, A op= A, A op= A op w, "
-               "'_, _lock = A', with op over the binary operators, cmp over the comparison operators and 0-2 spaces around operators (symbolic indices). "
+               "'_, _lock = A', and statements using two attributes of one object (A op= B, v = A op B, A = B, if A cmp B:, v op= A op B, A op= B op w, "
+               "B op= A, f(A, B); once and twice in a loop on the same source line), with op over the binary operators, cmp over the comparison operators and 0-2 spaces around operators (symbolic indices). "
                "Oracle: after the statement the calling thread does not own the attribute's lock. solver_part adds an unbounded regular-language "
                "query (z3 sequence theory): the patterns actually used by is_not_atomic (captured from the running code) intersected with the "
                "language of read-only statement forms with arbitrary identifiers, operands and spacing must be empty.")
@@ -118,6 +119,73 @@ def case(form, op, sp):
 
 
 Family(globals(), "h_statement", params=[("form", 0, 13), ("op", 0, 11), ("sp", 0, 2)], pre=pre, case=case, split=[], tiers=LIM)
+
+
+# ---- statements that use two thread-safe attributes of the same object ---------------------------------------------
+FORMS2 = ["A(op)=B", "v=A(op)B", "A=B", "if A(cmp)B:", "v(op)=A(op)B", "A(op)=B(op)w", "B(op)=A", "f(A, B)"]
+
+
+def pre2(v, lim):
+  form, op, sp = v["form"], v["op"], v["sp"]
+  if sp > lim["SP"]:
+    return False
+  if form in (2, 7):
+    return op == 0
+  if form == 3:
+    return op < len(CMP)
+  return True
+
+
+def statement2(form, op, sp):
+  s = " " * sp
+  A, Bn = "o.x", "o.y"
+  b = BIN[op] if op < len(BIN) else None
+  if form == 0: return "%s%s%s=%s%s" % (A, s, b, s, Bn)
+  if form == 1: return "v%s=%s%s%s%s%s%s" % (s, s, A, s, b, s, Bn)
+  if form == 2: return "%s%s=%s%s" % (A, s, s, Bn)
+  if form == 3:
+    c = CMP[op]
+    cs = " " + c + " " if c.startswith("is") else s + c + s
+    return "if %s%s%s:\n  pass" % (A, cs, Bn)
+  if form == 4: return "v%s%s=%s%s%s%s%s%s" % (s, b, s, A, s, b, s, Bn)
+  if form == 5: return "%s%s%s=%s%s%s%s%sw" % (A, s, b, s, Bn, s, b, s)
+  if form == 6: return "%s%s%s=%s%s" % (Bn, s, b, s, A)
+  return "f(%s,%s%s)" % (A, s, Bn)
+
+
+def case2(form, op, sp, rep):
+  from miros.thread_safe_attributes import MetaThreadSafeAttributes
+
+  class Thing(metaclass=MetaThreadSafeAttributes):
+    _attributes = ["x", "y"]
+
+  o = Thing()
+  dx, dy = Thing.__dict__["x"], Thing.__dict__["y"]
+  ns = {"o": o, "w": 2, "v": 5, "f": (lambda *a, **k: None)}
+  text = statement2(form, op, sp)
+  body = text if not rep else "for _i in range(2):\n  " + text.replace("\n", "\n  ")
+  try:
+    run_statement("o.x = 7", ns)
+    run_statement("o.y = 3", ns)
+    run_statement(body, ns)
+  except Exception as ex:
+    return FAIL("statement-raised:%s:%s" % (FORMS2[form], type(ex).__name__), "%r: %r" % (body, ex))
+  held = [n for n, d in (("x", dx), ("y", dy)) if d._lock._is_owned()]
+  if held:
+    return FAIL("lock-kept-after:two-attributes:" + FORMS2[form], "statement %r leaves the lock of attribute(s) %s held by the calling thread" % (body, held))
+  class R: pass
+  r = R(); r.x = 7; r.y = 3
+  exec(body.replace("o.", "r."), {"r": r, "w": 2, "v": 5, "f": (lambda *a, **k: None)})
+  try:
+    got = (o.x, o.y)
+  except Exception as ex:
+    return FAIL("attribute-unusable-after:" + FORMS2[form], "%r: %r" % (body, ex))
+  if got != (r.x, r.y):
+    return FAIL("wrong-value-after:two-attributes:" + FORMS2[form], "%r: (o.x, o.y) = %r expected %r" % (body, got, (r.x, r.y)))
+  return PASS(nontrivial=True)
+
+
+Family(globals(), "h_two_attributes", params=[("form", 0, 7), ("op", 0, 11), ("sp", 0, 2), ("rep", 0, 1)], pre=pre2, case=case2, split=[], tiers=LIM)
 
 
 def set_tier(tier):
